@@ -43,6 +43,8 @@ def snapshot(sc, pps):
         s["probe:occupancy"] = [None if o.occupancy_at_time(1) is None else snap.shape(o.occupancy_at_time(1).shape) for o in sc.obstacles]
     except Exception as e:
         s["probe:occupancy"] = "raises:" + type(e).__name__
+    # the public per-lanelet obstacle tables exactly as they are (which time steps have an entry at all)
+    s["registry_entries"] = {l.lanelet_id: sorted((int(t), len(v)) for t, v in (l.dynamic_obstacles_on_lanelet or {}).items()) for l in sc.lanelet_network.lanelets}
     s["states_declared"] = {}
     for o in sc.obstacles:
         p = getattr(o, "prediction", None)
@@ -78,6 +80,7 @@ def spec_variants():
     sp = speclib.base()
     sp["pps"][0]["goal"]["lanelets"] = {0: [1], 1: [2]}
     sp["pps"][0]["goal"]["states"][0]["attrs"]["position"] = speclib.lanelet_goal_shape(sp, [1])
+    speclib.find(sp, "lights", 11)["offset"] = 14         # more than two periods of the 2+3+1 cycle
     V["goal-lanelets-all"] = sp
     sp = speclib.base()
     sp["pps"][0]["goal"]["lanelets"] = {1: [2, 1]}
@@ -177,6 +180,10 @@ def ops():
             l.interpolate_position(float(l.distance[-1]) / 2)
             l.find_lanelet_successors_in_range(net, 30.0); l.find_lanelet_predecessors_in_range(net, 30.0)
         net.map_obstacles_to_lanelets(sc.static_obstacles)
+        for l in net.lanelets[:5]:
+            for t in (0, 1, 2, 7, 50):
+                l.dynamic_obstacle_by_time_step(t)
+            _ = l.static_obstacles_on_lanelet
     O["lanelet_network.lookups"] = lookups
 
     def merges(sc, pps):
